@@ -36,6 +36,20 @@ def rootArithmeticUntranslated (v : Version) : Bool :=
   (genProblems v).any fun s =>
     (s.splitOn "Manager").length > 1 || (s.splitOn "computeRootDigits").length > 1
 
+/-- the extractor could not translate (part of) the format rule of this version: the generated
+`newFormatSpec` / `bigExponent` are placeholders and the executable model has no opinion on
+formatted text (containment: C08, C16, C18 report the broken tie, other properties must not) -/
+def formatRuleUntranslated (v : Version) : Bool :=
+  (genProblems v).any fun s =>
+    (s.splitOn "newFormatSpec").length > 1 || (s.splitOn "formatSpecFor").length > 1 ||
+    (s.splitOn "bigExponent").length > 1
+
+/-- the same for the printer's regenerated pieces (label width, defaults, gap loop) -/
+def printerUntranslated (v : Version) : Bool :=
+  (genProblems v).any fun s =>
+    (s.splitOn "digitCountWidth").length > 1 || (s.splitOn "printerSettings").length > 1 ||
+    (s.splitOn "Fprint").length > 1 || (s.splitOn "Fwrite").length > 1 || (s.splitOn "printer.Consume").length > 1
+
 def chunkSize : Version → Nat
   | .v1 => Gen.V1.kMemoizerChunkSize.toNat
   | .v2 => Gen.V2.kMemoizerChunkSize.toNat
